@@ -359,8 +359,7 @@ impl G<'_> {
     }
 
     fn match_(&mut self, t: T, d: u32) -> E {
-        // inside the fragment of the lowering model only `i32?` examinees (no enum constructors yet)
-        let is_opt = self.frag || self.p.chance(1, 2);
+        let is_opt = self.p.chance(1, 2);
         let mut s = self.expr(if is_opt { T::O } else { T::E }, d);
         if is_opt && open_none(&s) {
             // `match Option.None { Some(x) => … }` leaves the payload type open while the arms are checked
@@ -419,7 +418,7 @@ impl G<'_> {
             }
             match self.p.below(100) {
                 0..=34 => {
-                    let ty = if self.frag { *self.p.pick(&[T::I, T::I, T::B, T::O, T::R]) } else { *self.p.pick(&LET_TYS) };
+                    let ty = if self.frag { *self.p.pick(&[T::I, T::I, T::B, T::O, T::R, T::E]) } else { *self.p.pick(&LET_TYS) };
                     let e = self.expr(ty, d);
                     let x = self.fresh(ty, true);
                     stmts.push(S::Let(x, e));
